@@ -25,10 +25,29 @@ type tamper struct {
 	mask     byte
 }
 
-type detRand struct{ r *hx.Rng }
+// detRand: the byte stream behind Config.Rand of the AM endpoints.  The generator is a private
+// copy of splitmix64 with the seeding of hx.NewRng as of 2026-09-26, so that stored AM cases keep
+// their meaning (msg, off -> field) even if the shared helper package changes again.
+type detRand struct{ s uint64 }
+
+func newDetRand(seed uint64) *detRand {
+	z := seed + 0x632BE59BD9B4E019
+	for i := 0; i < 2; i++ {
+		z = (z ^ (z >> 30)) * 0xBF58476D1CE4E5B9
+		z = (z ^ (z >> 27)) * 0x94D049BB133111EB
+		z = z ^ (z >> 31)
+	}
+	return &detRand{s: z}
+}
 
 func (d *detRand) Read(p []byte) (int, error) {
-	copy(p, d.r.Bytes(len(p)))
+	for i := range p {
+		d.s += 0x9E3779B97F4A7C15
+		z := d.s
+		z = (z ^ (z >> 30)) * 0xBF58476D1CE4E5B9
+		z = (z ^ (z >> 27)) * 0x94D049BB133111EB
+		p[i] = byte(z ^ (z >> 31))
+	}
 	return len(p), nil
 }
 
@@ -166,8 +185,8 @@ type amResult struct {
 func runAM(suite uint16, auth int, cc bool, t tamper) amResult {
 	ccfg := clientConfig(suite, cc, tNormal, "localhost")
 	scfg := serverConfig(auth, tNormal)
-	ccfg.Rand = &detRand{hx.NewRng(cfgSeed(suite, auth, cc, 1))}
-	scfg.Rand = &detRand{hx.NewRng(cfgSeed(suite, auth, cc, 2))}
+	ccfg.Rand = newDetRand(cfgSeed(suite, auth, cc, 1))
+	scfg.Rand = newDetRand(cfgSeed(suite, auth, cc, 2))
 	grp := newGroup(4, hsDeadline)
 	ca, cm := newPipe(grp) // client <-> mitm
 	sm, sa := newPipe(grp) // mitm <-> server
